@@ -141,20 +141,29 @@ Section Counter.
 
   (* with label_length >= 6, the 1 048 576th over-long name of one class in one statement is rendered one
      character longer than label_length (6 hex digits); no earlier one is (run_len_bounded) *)
+  Lemma overflow_at : forall ll cls m, 6 <= ll -> N.of_nat (S m) = hex_limit -> exists names st os,
+    N.of_nat (length names) = hex_limit /\ NoDup names
+    /\ run benv ll init_state (reqs_of cls names) = Ok (st, os)
+    /\ slen (last os []) = ll + 1.
+  Proof.
+    intros ll cls m Hl E.
+    destruct (kth_truncated_name ll cls m) as (st & os & R & _ & L).
+    exists (family ll (S m)), st, os. split; [|split; [apply family_nodup|split; [exact R|]]].
+    - unfold family. rewrite map_length, seq_length. exact E.
+    - rewrite L, E.
+      assert (slen (hexs hex_limit) = 6).
+      { pose proof (hexs_len_gt5 hex_limit ltac:(lia)). unfold slen in *. rewrite hexs_len in *.
+        pose proof (digits_len_le 16 hex_limit 6 ltac:(lia) ltac:(lia) ltac:(unfold hex_limit; lia)). lia. }
+      unfold label_cut. lia.
+  Qed.
+
   Theorem label_overflow_at_16_pow_5 : forall ll cls, 6 <= ll -> exists names st os,
     N.of_nat (length names) = hex_limit /\ NoDup names
     /\ run benv ll init_state (reqs_of cls names) = Ok (st, os)
     /\ slen (last os []) = ll + 1.
   Proof.
-    intros ll cls Hl. set (m := N.to_nat 1048575%N).
-    destruct (kth_truncated_name ll cls m) as (st & os & R & _ & L).
-    exists (family ll (S m)), st, os. split; [|split; [apply family_nodup|split; [exact R|]]].
-    - unfold family. rewrite map_length, seq_length. unfold hex_limit, m. lia.
-    - rewrite L. assert (E : N.of_nat (S m) = hex_limit) by (unfold hex_limit, m; lia). rewrite E.
-      assert (slen (hexs hex_limit) = 6).
-      { pose proof (hexs_len_gt5 hex_limit ltac:(lia)). unfold slen in *. rewrite hexs_len in *.
-        pose proof (digits_len_le 16 hex_limit 6 ltac:(lia) ltac:(lia) ltac:(unfold hex_limit; lia)). lia. }
-      unfold label_cut. lia.
+    intros ll cls Hl. apply (overflow_at ll cls (N.to_nat 1048575%N) Hl).
+    rewrite Nat2N.inj_succ, N2Nat.id. reflexivity.
   Qed.
 End Counter.
 
